@@ -23,7 +23,7 @@ TECHNIQUE = 'symbolic execution of go/ssa under a deterministic cooperative goro
 
 def tasks(tier):
     return [Task('verifHarness_C12_close', [s]) for s in (0, 1, 2, 3)] + [Task('verifHarness_C12_close2', [s]) for s in (4, 5)] + \
-        [Task('verifHarness_C12_init_failure', [o]) for o in (0, 1)] + [Task('verifHarness_C12_init_failure_conf', [k]) for k in (0, 1, 2, 3)] + [Task('verifHarness_C12_close_backoff', [])]
+        [Task('verifHarness_C12_init_failure', [o]) for o in (0, 1)] + [Task('verifHarness_C12_init_failure_conf', [k]) for k in (0, 1, 2, 3, 4, 5)] + [Task('verifHarness_C12_close_backoff', [])]
 
 
 def required_reach(tier):
@@ -33,7 +33,7 @@ def required_reach(tier):
 def bounds(tier):
     return {'scenarios': 'Close with (0) the application consuming and the channel idle, (1) the consumer stopped and the reader stuck on the '
                          'undelivered open event, (2) the writer stuck inside a transport Write, (3) right after Initialize with a write racing, (4) while a provider is still connecting (the connection completes afterwards and must be released), (5) stream requests enabled, the reader stuck on an undelivered event with an ArduPilot heartbeat buffered behind it, (6) a serial endpoint whose device was lost, with every reopen failing and the reconnect timer not elapsed',
-            'failed_initialize_configuration': 'invalid dialect (duplicate id), missing version, zero system id, key with version 1, with two scripted endpoints that count set-ups and closes: error, no goroutine, every endpoint that was set up closed once, no provider started',
+            'failed_initialize_configuration': 'invalid dialect (duplicate id), missing version, zero system id, key with version 1, stream requests without the message / without a dialect (accepted as "module off", or refused: nothing left behind either way), with two scripted endpoints that count set-ups and closes: error, no goroutine, every endpoint that was set up closed once, no provider started',
             'failed_initialize': 'a usable custom endpoint before / after an endpoint whose set-up fails: error reported, no goroutine left, the endpoint already set up closed once',
             'schedule': 'ONE: goroutines run round-robin, each until it blocks, to quiescence',
             'endpoint': 'custom transport; serial endpoint with a scripted open function (scenario 6)',
